@@ -54,3 +54,167 @@ Theorem C18_port_explicit : forall proto dest h p, (0 <= p <= int_max)%Z ->
   new_pre_route_item proto dest (h ++ ":"%char :: itoa p) =
     Some {| ri_proto := proto; ri_dest := dest; ri_host := h; ri_port := p |}.
 Proof. exact C18.nexthop_with_port. Qed.
+
+(* ------------------------------------------------------------------ C05 *)
+From Model Require Import RoundRobin SpecC05.
+From Model.proofs Require C05.
+
+(* every history in the domain (an address is never added while present): the outputs of the
+   model satisfy the independent judge — member at that moment, None iff empty, every window of
+   k dispatches between membership changes hits k different backends, removal flags, final set *)
+Theorem C05_judged : forall ops, rr_domain ops = true ->
+  let '(s, outs) := rr_run rr_init ops in judge_C05 ops outs (rr_backends s) = true.
+Proof. exact C05.C05_judged. Qed.
+
+Theorem C05_member : forall s, List.length (rr_backends s) <> 0%nat ->
+  exists b, snd (rr_dispatch s) = Some b /\ In b (rr_backends s) /\
+            rr_backends (fst (rr_dispatch s)) = rr_backends s /\
+            rr_map (fst (rr_dispatch s)) = rr_map s.
+Proof. exact C05.rr_member. Qed.
+
+Theorem C05_empty_dropped : forall s, List.length (rr_backends s) = 0%nat -> rr_dispatch s = (s, None).
+Proof. exact C05.rr_member_empty. Qed.
+
+(* any k consecutive dispatches over k backends reach each exactly once — from ANY state,
+   whatever the index is (it may exceed k after a removal) *)
+Theorem C05_window : forall s, List.length (rr_backends s) <> 0%nat ->
+  Permutation (snd (C05.rr_dispatches s (List.length (rr_backends s)))) (map Some (rr_backends s)) /\
+  rr_backends (fst (C05.rr_dispatches s (List.length (rr_backends s)))) = rr_backends s.
+Proof. exact C05.rr_window. Qed.
+
+(* after N dispatches every backend has received floor(N/k) or floor(N/k)+1 *)
+Theorem C05_counts : forall s N b, NoDup (rr_backends s) -> In b (rr_backends s) ->
+  let c := count_occ C05.obytes_dec (snd (C05.rr_dispatches s N)) (Some b) in
+  c = (N / List.length (rr_backends s))%nat \/ c = (N / List.length (rr_backends s) + 1)%nat.
+Proof. exact C05.rr_counts. Qed.
+
+Theorem C05_removed_silent : forall s a ops, C05.rr_inv s ->
+  Forall (fun o => o <> RAdd a) ops ->
+  ~ In (OSent (Some a)) (snd (rr_run (fst (rr_remove a s)) ops)).
+Proof. exact C05.rr_removed_silent. Qed.
+
+Theorem C05_added_joins : forall s a,
+  let outs := snd (C05.rr_dispatches (rr_add a s) (List.length (rr_backends s) + 1)) in
+  In (Some a) outs /\ forall b, In b (rr_backends s) -> In (Some b) outs.
+Proof. exact C05.rr_added_joins. Qed.
+
+(* schedules: every lock region one atomic step, ANY interleaving of dispatchers and
+   membership changes: no division by zero / index out of range, and every delivery goes to a
+   backend that is registered at the moment it is selected *)
+Theorem C05_schedules_safe : forall ops,
+  rr_srun {| ss_rr := rr_init; ss_threads := [] |} ops <> Panic /\
+  exists st' outs,
+    rr_srun {| ss_rr := rr_init; ss_threads := [] |} ops = Ok (st', outs) /\
+    forall k tid b, nth_error outs k = Some (SDelivered tid b) ->
+      exists stk, rr_srun {| ss_rr := rr_init; ss_threads := [] |} (firstn k ops)
+                    = Ok (stk, firstn k outs) /\
+                  In b (rr_backends (ss_rr stk)).
+Proof. exact C05.C05_schedules_safe. Qed.
+
+(* ------------------------------------------------------------------ C15 *)
+From Model Require Import Pins SpecC15.
+From Model.proofs Require C15.
+
+Theorem C15_judged : forall timeout_s ops, pins_domain timeout_s ops = true ->
+  judge_C15 timeout_s ops (snd (pins_run (0%Z, pins_new timeout_s 0%Z) ops)) = true.
+Proof. exact C15.C15_judged. Qed.
+
+(* honoured for max(timeout, Expires): at every instant strictly before the lifetime elapsed *)
+Theorem C15_honoured : forall ts pre k b e mid,
+  pins_domain ts (pre ++ PAdd k b e :: mid) = true ->
+  existsb (C15.touches k) mid = false ->
+  (C15.elapsed mid < c15_ns (Z.max ts e))%Z ->
+  let st := C15.after ts (pre ++ PAdd k b e :: mid) in
+  snd (pins_get (fst st) k (snd st)) = Some b.
+Proof. exact C15.C15_honoured. Qed.
+
+(* never at or after it *)
+Theorem C15_never_after : forall ts pre k b e mid,
+  pins_domain ts (pre ++ PAdd k b e :: mid) = true ->
+  existsb (C15.touches k) mid = false ->
+  (c15_ns (Z.max ts e) <= C15.elapsed mid)%Z ->
+  let st := C15.after ts (pre ++ PAdd k b e :: mid) in
+  snd (pins_get (fst st) k (snd st)) = None.
+Proof. exact C15.C15_never_after. Qed.
+
+(* dissolved on termination *)
+Theorem C15_removed : forall ts pre k mid,
+  existsb (C15.adds k) mid = false ->
+  let st := C15.after ts (pre ++ PRemove k :: mid) in
+  snd (pins_get (fst st) k (snd st)) = None.
+Proof. exact C15.C15_removed. Qed.
+
+(* right after any pin-creating event at time t nothing that expired more than one timeout
+   before t is left, whatever Expires values were seen *)
+Theorem C15_swept : forall ts pre k b e,
+  pins_domain ts (pre ++ [PAdd k b e]) = true -> C15.swept (C15.after ts (pre ++ [PAdd k b e])).
+Proof. exact C15.C15_swept. Qed.
+
+Theorem C15_bounded : forall ts pre k b e,
+  let ops := pre ++ [PAdd k b e] in
+  pins_domain ts ops = true ->
+  let t := fst (C15.after ts ops) in
+  fst (c15_after ts ops) = t /\
+  (List.length (p_tab (snd (C15.after ts ops))) <=
+   List.length (filter (c15_recent ts t) (snd (c15_after ts ops))))%nat.
+Proof. exact C15.C15_bounded. Qed.
+
+(* the pre-fix code (nextCleanTime = expiry of the entry just added) violates it *)
+Theorem C15_legacy_refuted :
+  exists ts pre k b e,
+    pins_domain ts (pre ++ [PAdd k b e]) = true /\
+    ~ C15.swept (C15.legacy_after ts (pre ++ [PAdd k b e])) /\
+    judge_C15 ts (pre ++ [PAdd k b e])
+              (snd (C15.legacy_run (0%Z, pins_new ts 0%Z) (pre ++ [PAdd k b e]))) = false.
+Proof. exact C15.C15_legacy_refuted. Qed.
+
+(* ------------------------------------------------------------------ C19 *)
+From Model Require Import Resolver SpecC19.
+From Model.proofs Require C19.
+
+Theorem C19_judged : forall port os,
+  c19_domain os = true -> judge_C19 port os (C19.resolver_obs port (rentry_init, rr_init) os) = true.
+Proof. exact C19.C19_judged. Qed.
+
+(* what the extracted runner prints is exactly that observation *)
+Theorem C19_runner_is_obs : forall port os st,
+  resolver_run port st os = flat_map C19.e_c19_obs (C19.resolver_obs port st os).
+Proof. exact C19.resolver_run_obs. Qed.
+
+Theorem C19_tracks : forall port e s A e' s' outs,
+  C19.Inv port (e, s) -> NoDup A ->
+  resolver_step port (e, s) (ROk A) = ((e', s'), outs) ->
+  C19.Inv port (e', s') /\
+  re_addrs e' = A /\ re_failed e' = 0%nat /\
+  NoDup (rr_backends s') /\
+  Permutation (rr_backends s') (map (fun ip => create_host_port ip port) A) /\
+  outs = repeat (ORemoved true) (List.length (str_array_sub (re_addrs e) A)) /\
+  (forall ip, In ip (re_addrs e) -> ~ In ip A ->
+     ~ In (create_host_port ip port) (rr_backends s') /\ ~ In (create_host_port ip port) (rr_map s')) /\
+  (forall ip, In ip A ->
+     In (create_host_port ip port) (rr_backends s') /\ In (create_host_port ip port) (rr_map s')).
+Proof. exact C19.C19_tracks. Qed.
+
+Theorem C19_tolerates : forall port e s,
+  (re_failed e < 3)%nat \/ re_addrs e = [] ->
+  resolver_step port (e, s) RFail =
+  (({| re_addrs := re_addrs e; re_failed := S (re_failed e) |}, s), []).
+Proof. exact C19.C19_tolerates. Qed.
+
+Theorem C19_fourth_empties : forall port e s,
+  C19.Inv port (e, s) -> (3 <= re_failed e)%nat -> re_addrs e <> [] ->
+  exists s',
+    resolver_step port (e, s) RFail =
+      (({| re_addrs := []; re_failed := 0 |}, s'),
+       repeat (ORemoved true) (List.length (re_addrs e))) /\
+    rr_backends s' = [] /\ rr_map s' = [] /\
+    C19.Inv port ({| re_addrs := []; re_failed := 0 |}, s').
+Proof. exact C19.C19_fourth_empties. Qed.
+
+Theorem C19_success_resets : forall port e s A,
+  fst (fst (resolver_step port (e, s) (ROk A))) = {| re_addrs := A; re_failed := 0 |}.
+Proof. exact C19.C19_success_resets. Qed.
+
+Theorem C19_invariant_reachable : forall port os,
+  c19_domain os = true -> C19.Inv port (C19.resolver_states port (rentry_init, rr_init) os).
+Proof. exact C19.C19_inv_reachable. Qed.
